@@ -206,7 +206,9 @@ class Batch:
             idx += 1
             if os.path.exists(path):
                 os.remove(path)
-            rc, err, _ = run_worker(self.binary, self.env(cur, to, samples if cur == frm else 0), path, timeout=60 + per_run_timeout * (to - cur))
+            e = self.env(cur, to, samples if cur == frm else 0)
+            e['VSIM_RUN_TIMEOUT_S'] = str(int(max(20, 4 * per_run_timeout)))  # the worker's own per-run watchdog (exit 3 with stacks)
+            rc, err, _ = run_worker(self.binary, e, path, timeout=60 + per_run_timeout * (to - cur))
             recs = read_results(path)
             os.remove(path) if os.path.exists(path) else None
             ends = [r for r in recs if r.get('ev') == 'end']
@@ -240,7 +242,7 @@ class Batch:
                 break
             sig = crash_signature(self.prop, err)
             if sig is None:
-                self.infra.append(('simulator code panicked (a bug in /verif, not a violation) at run %d: %s' if harness_panic(err) else 'worker watchdog at run %d: %s') % (pend[0], tail_of_crash(err)[:1200] if harness_panic(err) else err[-800:]))
+                self.infra.append(('simulator code panicked (a bug in /verif, not a violation) at run %d: %s' if harness_panic(err) else 'worker watchdog at run %d: %s') % (pend[0], tail_of_crash(err)[:1200] if harness_panic(err) else (err[err.index('WATCHDOG: run'):][:6000] if 'WATCHDOG: run' in err else err[-800:])))
             else:
                 self.crashes.append((pend[0], sig, err))
             cur = pend[0] + 1
